@@ -187,7 +187,6 @@ private:
     }
     int _tid = -1;
 };
-inline void swap(thread &a, thread &b) noexcept { a.swap(b); }
 
 namespace this_thread {
 inline thread::id get_id() noexcept { return thread::id(vrt_self()); }
